@@ -316,7 +316,8 @@ def audit(form, xform):
     body = root.find(xf.H + "body")
     exp = read_sheet(form["survey"])
     probs = []
-    tl_sections = {r.get("name") for r in form["survey"] if r.get("type", "").startswith("begin") and "table-list" in str(r.get("appearance", ""))}
+    tl_sections = {r.get("name"): any(k.split("::")[0].split(":")[0].strip().lower() in ("label", "hint") for k in r)
+                   for r in form["survey"] if r.get("type", "").startswith("begin") and "table-list" in str(r.get("appearance", ""))}
 
     def name_of(e):
         return etree.QName(e).localname
@@ -325,8 +326,14 @@ def audit(form, xform):
         kids = [c for c in e if isinstance(c.tag, str)]
         live = [c for c in kids if c.get(JRT) is None]
         got = [name_of(c) for c in live]
-        if path.rsplit("/", 1)[-1] in tl_sections and got and re.fullmatch(r"generated_table_list_label_\d+", got[0]):
-            live, got = live[1:], got[1:]       # the label row a table-list section generates for itself (documented)
+        sec = path.rsplit("/", 1)[-1]
+        if sec in tl_sections:
+            # a table-list section that has a label or a hint shows it in a generated first row (documented); one that has neither generates nothing
+            has_helper = bool(got) and re.fullmatch(r"generated_table_list_label_\d+", got[0]) is not None
+            if has_helper != tl_sections[sec]:
+                probs.append(f"table-list section {path}: generated label row {'present' if has_helper else 'missing'}, the row {'has' if tl_sections[sec] else 'has no'} label or hint")
+            if has_helper:
+                live, got = live[1:], got[1:]
         want = [x[1] for x in expected]
         if path == "/" + name_of(inst):
             got = [g for g in got if g != "meta"]
@@ -387,8 +394,9 @@ def audit(form, xform):
                 cmp_body(controls(inner[0]), x[3], ref)
             elif x[0] == "group":
                 cmp_body(controls(c), x[3], ref)
-                if row.get("appearance") and c.get("appearance") != row["appearance"]:
-                    probs.append(f"group {ref}: appearance {c.get('appearance')!r} != {row['appearance']!r}")
+                want_app = (row.get("appearance") or "").replace("table-list", "field-list")      # a table-list group is rendered as a field-list (documented)
+                if row.get("appearance") and c.get("appearance") != want_app:
+                    probs.append(f"group {ref}: appearance {c.get('appearance')!r} != {want_app!r}")
             else:
                 bt = base_type(row)
                 if bt in MEDIATYPE and c.get("mediatype") != MEDIATYPE[bt]:
